@@ -23,7 +23,9 @@ func NewModel(opts ...resource.Option) *Model {
 		oldVal := old.(*traits.MeterReading)
 		newVal := new.(*traits.MeterReading)
 		now := value.Clock().Now()
-		if oldVal.StartTime == nil {
+		// this write replaces the whole reading: start from what the model was configured with
+		proto.Merge(newVal, oldVal)
+		if newVal.StartTime == nil {
 			newVal.StartTime = timestamppb.New(now)
 		}
 		if newVal.EndTime == nil {
